@@ -50,6 +50,7 @@ type Config struct {
 	SpinLimit     int   // identical (op,object,shadow-state) observations by one thread with nobody else stepping (0 = 64)
 	Horizon       int64 // virtual nanoseconds after which pending timers are no longer fired (0 = no limit)
 	SwitchOnTime  bool  // coarse mode: time operations (arming / stopping timers) are switch points
+	SwitchOnNet   bool  // coarse mode: virtual network operations (Dial, Write, Close) are switch points
 	SwitchOnSpawn bool  // coarse mode: a go statement is a switch point too (the new thread may run before its creator continues)
 	FreeAtExit    bool  // in CostDelay mode, make the choice after a thread exit/block free (cost 0 for every alternative)
 }
@@ -554,7 +555,7 @@ func Point(kind Kind, obj uintptr) {
 		return
 	}
 	e.step(kind, obj)
-	if e.cfg.Coarse && kind != KYield && kind != KEnter && !(kind == KSpawn && e.cfg.SwitchOnSpawn) && !(kind == KTime && e.cfg.SwitchOnTime) {
+	if e.cfg.Coarse && kind != KYield && kind != KEnter && !(kind == KSpawn && e.cfg.SwitchOnSpawn) && !(kind == KTime && e.cfg.SwitchOnTime) && !(kind == KNet && e.cfg.SwitchOnNet) {
 		return
 	}
 	e.reschedule(kind, "")
